@@ -178,6 +178,17 @@ def make_value(spec, name, st, inputs):
         return UFn(z3.Function("in_" + name, *([S] * arity + [B])), "bool")
     if isinstance(spec, tuple) and spec and spec[0] == "lit":
         return spec[1]
+    if isinstance(spec, tuple) and spec and spec[0] == "strcat":
+        # a string with a literal skeleton and symbolic holes: ("strcat", [":param x: ", "str"]) -- holes are named <name>_<i>
+        parts = []
+        for i, part in enumerate(spec[1]):
+            if part == "str":
+                t = z3.Const("in_%s_%d" % (name, i), S)
+                inputs["%s_%d" % (name, i)] = ("str", t)
+                parts.append(t)
+            else:
+                parts.append(z3.StringVal(part))
+        return Sym(parts[0] if len(parts) == 1 else z3.Concat(*parts), "str")
     if isinstance(spec, tuple) and spec and spec[0] == "obj":
         t = z3.Const("in_" + name, Obj)
         inputs[name] = ("obj", t)
